@@ -21,10 +21,11 @@ const (
 	opR  = 'R' // release
 	opRR = 'D' // release twice
 	opH  = 'H' // hand the release func to a new thread which calls it
+	opTN = 'N' // nested temporary release; after the inner one returned, the outer function takes and returns a token of its own
 	opS  = 'S' // share ctx (holder) with a helper thread; both TemporarilyRelease concurrently (uncounted)
 )
 
-const alphabet = "WynrRDHS"
+const alphabet = "WynNrRDHS"
 
 func scripts(maxLen int) []string {
 	var out []string
@@ -137,6 +138,24 @@ func runScript(s *state, base context.Context, mode int, script string) {
 			}
 			concurrencylimiter.TemporarilyRelease(hctx, func() {
 				concurrencylimiter.TemporarilyRelease(hctx, func() { rt.Yield() })
+			})
+			if holding && counted {
+				s.enter()
+			}
+		case opTN:
+			if holding && counted {
+				s.dec()
+			}
+			concurrencylimiter.TemporarilyRelease(hctx, func() {
+				concurrencylimiter.TemporarilyRelease(hctx, func() { rt.Yield() })
+				// still inside the outer temporary release: the token given up must be obtainable
+				// (not after S: a holder shared between goroutines is outside the counted model)
+				if holding && counted {
+					_, rel2 := concurrencylimiter.Acquire(base)
+					s.enter()
+					s.dec()
+					rel2()
+				}
 			})
 			if holding && counted {
 				s.enter()
@@ -355,5 +374,5 @@ func run(rp *explore.Report, tier string) {
 
 func init() {
 	reg.Register(&reg.Harness{Property: "C20", Name: "c20/limiter", Level: "model_checking", Bounds: [2]int{3, 4}, Run: run, Item: parseItem,
-		Rule: "items = limiter size (0: nobody is admitted, 1, 2) x context mode of thread 0 x thread scripts over {W,y,n,r,R,D,H,S}; every interleaving within the deviation bound is executed on the real concurrencylimiter; non-trivial = executions in which at least one counted holder entered the critical section"})
+		Rule: "items = limiter size (0: nobody is admitted, 1, 2) x context mode of thread 0 x thread scripts over {W,y,n,N,r,R,D,H,S}; every interleaving within the deviation bound is executed on the real concurrencylimiter; non-trivial = executions in which at least one counted holder entered the critical section"})
 }
